@@ -1,3 +1,4 @@
 pub mod pgen;
 pub mod interp;
 pub mod ir;
+pub mod walk;
